@@ -31,7 +31,9 @@ THEOREMS = ["fasta_read_write", "fasta_rewrap_invariant", "fasta_file_lines", "f
             # round 4: esl-reformat fasta <alignment file> (sequence branch over the C03 readers and C15 FetchFromMSA)
             "reformat_fasta_lines_are_sequence", "reformat_fasta_convert_pointwise",
             # round 4: esl-alistat on Stockholm/Pfam in digital mode with --list/--icinfo/--rinfo/--iinfo/--cinfo
-            "alistat_column_counters", "alistat_count_cells", "alistat_rfpos_cells"]
+            "alistat_column_counters", "alistat_count_cells", "alistat_rfpos_cells",
+            # round 4: esl-compstruct
+            "compstruct_correct_le_pairs", "compstruct_strict_correct_symmetric", "compstruct_self_is_perfect", "compstruct_mathews_relaxes"]
 
 SQFORMATS = ["fasta", "embl", "genbank", "uniprot", "ddbj", "daemon", "hmmpgmd", "ncbi", "fmindex"]
 MSAFORMATS = ["stockholm", "pfam", "a2m", "afa", "psiblast", "clustal", "clustallike", "selex", "phylip", "phylips"]
@@ -798,13 +800,27 @@ def ref_reformat(rng, i):
         recs, abc = ref_records(rng, maxlen=140, long_ok=True)
         if rng.random() < 0.3:
             recs = [(n, d, "".join(c if rng.random() > 0.05 else rng.choice("XxNn*") for c in s)) for n, d, s in recs]
+        mapargs = []
+        if rng.random() < 0.35:
+            # --ignore / --acceptx edit the sequence reader's input map: characters that are otherwise illegal in FASTA are dropped /
+            # read as X; a letter can be ignored too; a character in both lists is read as X (AcceptAs is applied last)
+            ign = "".join(rng.sample("0123456789.-_/N", rng.choice([1, 2, 4])))
+            acc = "".join(rng.sample("?#@+=x" + ign[:1], rng.choice([1, 2, 3])))
+            if ign == "-": ign = "."
+            if ign[0] == "-": ign = ign[1:] + "-"       # a value that starts with '-' "looks like an option" to esl_getopts
+            if acc == "-": acc = "?"
+            if acc[0] == "-": acc = acc[1:] + "-"
+            pool = ""
+            if rng.random() < 0.8: mapargs += ["--ignore", ign]; pool += ign
+            if rng.random() < 0.6 or not pool: mapargs += ["--acceptx", acc]; pool += acc
+            recs = [(n, d, "".join(c + (rng.choice(pool) if rng.random() < 0.08 else "") for c in s)) for n, d, s in recs]
         text, infmt, outfmt = ref_fasta_text(rng, recs, crlf_ok=True), "fasta", "fasta"
     else:
         rows, abc = ref_msa_rows(rng)
         if rng.random() < 0.3:
             rows = [(n, d, "".join(c if rng.random() > 0.05 else rng.choice("XxNn" if mode == "af" else "XxNn~") for c in s)) for n, d, s in rows]
         text, infmt, outfmt = ref_fasta_text(rng, rows), "afa", ("fasta" if mode == "af" else "afa")
-    args = []
+    args = list(mapargs) if mode == "ff" else []
     for a, b in (("-d", "-r"), ("-l", "-u"), ("-n", "-x")):
         w = rng.random()
         if w < 0.25: args.append(a)
@@ -1323,6 +1339,7 @@ def ref_afetch_exact(rng, i):
     elif w < 0.5: args += ["--outformat", infmt]
     if rng.random() < 0.3:
         keys = [rng.choice([x for x in r if x]) for r in recs if rng.random() < 0.6] or [recs[-1][0]]
+        keys = list(dict.fromkeys(keys))          # a key listed twice is refused by the tool (the name/accession tie above can produce one)
         rng.shuffle(keys)
         kt = ""
         for k_ in keys:
@@ -1340,6 +1357,126 @@ def ref_afetch_exact(rng, i):
         elif w < 0.3: ops += [op_run("esl-afetch", ["-O"] + args + ["in.sto", key]), "cat name=" + key]
         else: ops.append(op_run("esl-afetch", args + ["in.sto", key]))
     return {"name": "ref-afetchx-%d" % i, "ref": True, "sticky": 1, "ops": ops}
+
+
+def _perturb_ss(rng, ss, seq):
+    """a 'predicted' structure: the trusted one with some pairs removed, some slipped by one position (Mathews' rule), some added"""
+    ss = list(ss)
+    n = len(ss)
+    stack, pairs = [], []
+    for k, c in enumerate(ss):
+        if c in "<([{": stack.append(k)
+        elif c in ">)]}" and stack: pairs.append((stack.pop(), k))
+    for (a, b) in pairs:
+        w = rng.random()
+        if w < 0.2: ss[a] = ss[b] = "."
+        elif w < 0.4 and b + 1 < n and ss[b + 1] in ".:,_-~" and seq[b + 1] not in "-._~":
+            ss[b + 1], ss[b] = ss[b], "."              # (i, j+1)
+        elif w < 0.5 and a > 0 and ss[a - 1] in ".:,_-~" and seq[a - 1] not in "-._~":
+            ss[a - 1], ss[a] = ss[a], "."              # (i-1, j)
+    return "".join(ss)
+
+
+def ref_compstruct(rng, i):
+    """esl-compstruct --quiet [-m] [-p]: trusted vs predicted per-sequence structures (#=GR SS) of one or more alignment pairs;
+    identical / perturbed / slipped predictions, pseudoknot letters, sequences without pairs (0/0 = -nan%), and every REJECTED
+    branch: missing predicted / trusted structure, other name, other length, unbalanced structure"""
+    nali = rng.choice([1, 1, 2])
+    ktext = ttext = ""
+    for a in range(nali):
+        rows, abc = wide_rows(rng, abc="ACGU", nseq=rng.choice([1, 2, 3, 5]), alen=rng.choice([6, 20, 45, 61, 130]), longnames=rng.random() < 0.3)
+        alen = len(rows[0][1])
+        kss, tss, trows = {}, {}, list(rows)
+        for k, (n, s_) in enumerate(rows):
+            ss = balanced_ss(rng, alen)
+            # a pair must sit on two residues: gap columns carry '.'
+            ssl = list(ss); st = []
+            for c_, ch in enumerate(ssl):
+                if ch in "<([{": st.append(c_)
+                elif ch in ">)]}":
+                    o = st.pop()
+                    if s_[o] in "-._~" or s_[c_] in "-._~": ssl[o] = ssl[c_] = "."
+            ss = "".join(ssl)
+            if rng.random() < 0.2 and alen >= 6:       # a pseudoknot: A..a on residues
+                free = [c_ for c_ in range(alen) if ss[c_] in ".:,_-~" and s_[c_] not in "-._~"]
+                if len(free) >= 2:
+                    x, y = sorted(rng.sample(free, 2)); ssl = list(ss); ssl[x], ssl[y] = "A", "a"; ss = "".join(ssl)
+            if rng.random() < 0.1: ss = "." * alen      # no pairs at all
+            kss[k] = ss
+            w = rng.random()
+            tss[k] = ss if w < 0.3 else _perturb_ss(rng, ss, s_)
+            w = rng.random()
+            if w < 0.05: del tss[k]
+            elif w < 0.10: del kss[k]
+            elif w < 0.15: trows[k] = (n + "x", s_)
+            elif w < 0.20 and "-" in s_: trows[k] = (n, s_.replace("-", "A", 1))
+            elif w < 0.25: tss[k] = "<" + tss[k][1:].replace(">", ".", 1) if alen > 1 else tss[k]
+            elif w < 0.30: kss[k] = ">" + kss[k][1:]
+        if not kss: kss[0] = "." * alen
+        if not tss: tss[0] = "." * alen
+        cpl = rng.choice([alen, 200, 50])
+        ktext += sto_text_blocks(rows, cpl, grss=kss, ident=rng.choice([None, "k%d" % a]))
+        ttext += sto_text_blocks(trows, rng.choice([alen, cpl]), grss=tss)
+    if rng.random() < 0.2:
+        ttext += sto_text_blocks([("extra", "ACGU")], 4)          # more alignments in the test file than in the trusted one: not read
+    args = ["--quiet"] + [o for o in ("-m", "-p") if rng.random() < 0.5]
+    return {"name": "ref-compstruct-%d" % i, "ref": True, "sticky": 2,
+            "ops": [op_file("k.sto", ktext), op_file("t.sto", ttext), op_run("esl-compstruct", args + ["k.sto", "t.sto"])]}
+
+
+def _multi_sto(rng, abc, nali=None, annotate=True, pfam=False, dup=False):
+    """a Stockholm / Pfam file of 2-4 alignments of different shapes (number of sequences, width, name lengths, annotation)"""
+    text = ""
+    for a in range(nali or rng.choice([2, 2, 3, 4])):
+        rows, _ = wide_rows(rng, abc=abc, nseq=rng.choice([1, 2, 3, 5, 8]), alen=rng.choice([3, 11, 40, 61, 130, 205]), gaps=rng.choice(["-", "-.", "-._"]))
+        rows = [("%s.%d" % (n, a + 1), s_) for n, s_ in rows]
+        if rng.random() < 0.3: rows = [(n, "".join(c.lower() if rng.random() < 0.2 else c for c in s_)) for n, s_ in rows]
+        if dup and len(rows) > 2: rows[2] = (rows[2][0], rows[0][1])         # identical sequences: something for the filters to remove
+        alen = len(rows[0][1])
+        rf = ss = None
+        if annotate and rng.random() < 0.4:
+            rf = "".join("x" if rng.random() < 0.7 else "." for _ in range(alen))
+            if "x" not in rf: rf = "x" + rf[1:]
+        if annotate and rng.random() < 0.3: ss = balanced_ss(rng, alen)
+        text += sto_text_blocks(rows, alen if pfam else rng.choice([alen, 200, 50]), rf=rf, sscons=ss,
+                                desc=({0: "a description"} if annotate and rng.random() < 0.3 else None),
+                                ident=(rng.choice([None, "aln%d" % (a + 1)]) if annotate else None))
+    return text
+
+
+def ref_multi_ali(rng, i):
+    """esl-alipid / esl-alirev / esl-weight on files that hold SEVERAL alignments of different shapes: these tools loop over every
+    alignment of the file, and the complete stdout is predicted (state carried from one alignment to the next shows as a difference)"""
+    tool = rng.choice(["esl-alipid", "esl-alirev", "esl-weight", "easel alistat"])
+    pfam = rng.random() < 0.3
+    infmt = "pfam" if pfam else "stockholm"
+    if tool == "easel alistat":      # the format is guessed (by content, then by the file name's suffix); -1 prints each record's size one iteration late
+        abc = rng.choice([DNA, "ACGU", AMINO])
+        text = _multi_sto(rng, abc, nali=rng.choice([1, 2, 3, 4]), pfam=pfam)
+        if rng.random() < 0.3: text = text.replace("//\n", "//\n\n", 1)         # a blank line between two records belongs to the second one's span
+        if rng.random() < 0.3: text += "\n\n"                                  # trailing blank lines count towards the last record
+        fn = "in.pfam" if (pfam and rng.random() < 0.7) else rng.choice(["in.sto", "in.stk", "aln"])
+        args = ["alistat", ABCFLAG[abc]] + (["-1"] if rng.random() < 0.6 else [])
+        return {"name": "ref-multi-easel-alistat-%d" % i, "ref": True, "sticky": 1, "ops": [op_file(fn, text), op_run("easel", args + [fn])]}
+    if tool == "esl-alirev":
+        abc = rng.choice([DNA, "ACGU"])
+        text = _multi_sto(rng, abc, pfam=pfam)
+        args = [ABCFLAG[abc], "--informat", infmt]
+        if rng.random() < 0.3: args += ["--outformat", rng.choice(["stockholm", "pfam"])]
+    elif tool == "esl-alipid":
+        abc = rng.choice([DNA, "ACGU", AMINO])
+        text = _multi_sto(rng, abc, pfam=pfam)
+        args = [ABCFLAG[abc], "--informat", infmt] + (["--noheader"] if rng.random() < 0.3 else [])
+    else:
+        abc = rng.choice([DNA, "ACGU", AMINO])
+        text = _multi_sto(rng, abc, pfam=pfam, annotate=rng.random() < 0.5, dup=True)
+        args = [ABCFLAG[abc], "--informat", infmt]
+        w = rng.random()
+        if w < 0.25: args.append("-p")
+        elif w < 0.5: args += ["-b"] + (["--id", rng.choice(["0.62", "0.5", "0.9"])] if rng.random() < 0.5 else [])
+        elif w < 0.7: args.append("-g")
+        elif w < 0.9: args += ["-f"] + (["--idf", rng.choice(["0.8", "0.5", "1.0"])] if rng.random() < 0.6 else [])
+    return {"name": "ref-multi-%s-%d" % (tool, i), "ref": True, "sticky": 1, "ops": [op_file("in.sto", text), op_run(tool, args + ["in.sto"])]}
 
 
 def ref_weight(rng, i):
@@ -1558,7 +1695,25 @@ def sto_text_blocks(rows, cpl, rf=None, sscons=None, grss=None, desc=None, ident
     return "\n".join(out) + "\n"
 
 
-def sweep_input_msa(rng, want_ss=None, want_rf=None, via_ok=True, kh=False, abc=None, alen=None):
+def more_alignments(rng, abc, names=None, rf=False, sscons=False, pfam=False, kh=False, n=None, gaps="-"):
+    """text of 1-2 FURTHER Stockholm alignments of other shapes (other width, other rows; the same sequence names when <names>
+    is given, the same kinds of annotation): whatever a tool carries over from one alignment to the next shows in its output"""
+    out = ""
+    for a in range(n or rng.choice([1, 1, 2])):
+        rows, _ = wide_rows(rng, abc=abc, nseq=(len(names) if names else rng.choice([1, 2, 4, 7])), alen=rng.choice([4, 9, 40, 61, 77, 205]), gaps=gaps)
+        if names: rows = [(nm, s_) for nm, (_, s_) in zip(names, rows)]
+        else: rows = [("%s.%d" % (nm, a + 2), s_) for nm, s_ in rows]
+        alen = len(rows[0][1])
+        rfl = None
+        if rf:
+            rfl = "".join("x" if rng.random() < 0.7 else "." for _ in range(alen))
+            if "x" not in rfl: rfl = "x" + rfl[1:]
+        ss = balanced_ss(rng, alen, kh) if sscons else None
+        out += sto_text_blocks(rows, alen if pfam else rng.choice([alen, 200, 50]), rf=rfl, sscons=ss, ident=rng.choice([None, "aln%d" % (a + 2)]))
+    return out
+
+
+def sweep_input_msa(rng, want_ss=None, want_rf=None, via_ok=True, kh=False, abc=None, alen=None, multi=False):
     """-> (ops creating the input file 'in.x', informat, info) : aligned FASTA, Stockholm in 200- or other-width blocks, Pfam,
     or (via) any other alignment format produced from aligned FASTA by the tool itself (that run is predicted too)"""
     w = rng.random()
@@ -1579,7 +1734,11 @@ def sweep_input_msa(rng, want_ss=None, want_rf=None, via_ok=True, kh=False, abc=
         cpl = rng.choice([alen, alen, 200, 200, 50, 77])
         text = sto_text_blocks(rows, max(1, cpl), rf=rf, sscons=sscons, grss=grss, desc=desc, ident=rng.choice([None, "aln1"]))
         info.update(rf=rf, sscons=sscons)
-        return [op_file("in.x", text)], ("pfam" if cpl >= alen and rng.random() < 0.5 else "stockholm"), info
+        as_pfam = cpl >= alen and rng.random() < 0.5
+        if multi and rng.random() < 0.4:
+            more = more_alignments(rng, abc, rf=bool(rf), sscons=bool(sscons), pfam=as_pfam, kh=kh)
+            text += more; info["nali"] = 1 + more.count("# STOCKHOLM 1.0")
+        return [op_file("in.x", text)], ("pfam" if as_pfam else "stockholm"), info
     if w < 0.7 or not via_ok:
         recs = [(n, rng.choice(["", "", "desc here"]), s_) for n, s_ in rows]
         return [op_file("in.x", ref_fasta_text(rng, recs))], "afa", info
@@ -1669,11 +1828,16 @@ def _reformat_build(rng, opts):
     wuss = [n for n in ("--wussify", "--dewuss", "--fullwuss") if n in on]
     want_ss = True if wuss else None
     want_rf = True if "--keeprf" in on else None
+    forced_fmt = "<outfmt>" in on
     outfmt = on.pop("<outfmt>", None) or rng.choice(MSAFORMATS + ["fasta", "fasta"])    # fasta: the tool's sequence branch over an alignment file
     alen = on.pop("<alen>", None)
     if "--namelen" in on and rng.random() < 0.7 and outfmt not in ("phylip", "phylips"):
         outfmt = rng.choice(["phylip", "phylips"])
-    ops, infmt, info = sweep_input_msa(rng, want_ss=want_ss, want_rf=want_rf, kh=("--wussify" in on), alen=alen)
+    ops, infmt, info = sweep_input_msa(rng, want_ss=want_ss, want_rf=want_rf, kh=("--wussify" in on), alen=alen, multi=True)
+    multi_refused = False
+    if info.get("nali", 1) > 1 and outfmt not in ("stockholm", "pfam", "fasta"):
+        if not forced_fmt and rng.random() < 0.75: outfmt = rng.choice(["stockholm", "pfam", "fasta"])
+        else: multi_refused = True         # ">1 alignments, but <fmt> formatted output file can only contain 1": the first is written, then exit 1
     args = []
     for n, v in opts:
         if n.startswith("<"): continue
@@ -1682,6 +1846,8 @@ def _reformat_build(rng, opts):
     c = {"ops": ops + [op_run("esl-reformat", args)], "sticky": len(ops)}
     if "--wussify" in on and ("--mingap" in on or "--nogap" in on):
         # old-notation structure lines are not WUSS: the base-pair repair of the column removal refuses them (exit 1 + message)
+        c["may_fail"] = True; c["nopred_ok"] = True
+    if multi_refused:
         c["may_fail"] = True; c["nopred_ok"] = True
     if "--fullwuss" in on and outfmt == "fasta":
         # unaligned output: the per-sequence structure line is dealigned with its sequence (a pair can lose one partner) before
@@ -1700,7 +1866,7 @@ REFORMAT_SWEEP = Sweep("esl-reformat",
             "--replace": lambda r: r.choice(["A:x", "AC:ca", "acgt:ACGT", "N:n", "XYZ:NNN", ".:-", "_.:--"]),
             "--namelen": lambda r: r.choice(["1", "5", "10", "10", "14", "25", "40"])},
     skip={"-o": "exercised on a tenth of the cases (output file compared instead of stdout)", "--informat": "always given",
-          "--ignore": "alignment output: must be refused (corpus); unaligned output: input-map change of the sequence reader, not modelled",
+          "--ignore": "alignment output: refused at run time (corpus); FASTA input -> fasta: modelled and exercised by ref_reformat (input-map edit of the sequence reader)",
           "--acceptx": "as --ignore", "--small": "compared with the normal mode's output (ref_small), not with the model",
           "--id_map": "hmmpgmd output only: map file compared by the python monitor (ref_hmmpgmd)"},
     build=_reformat_build, singles=4, pair_reps=1)
@@ -1887,6 +2053,8 @@ def _alimask_build(rng, opts):
     grss = {0: balanced_ss(rng, alen)} if (sscons and rng.random() < 0.3) else None
     cpl = rng.choice([alen, 200, 50])
     text = sto_text_blocks(rows, cpl, rf=rf, sscons=sscons, grss=grss, ident=rng.choice([None, "aln1"]))
+    if rng.random() < 0.3:      # esl-alimask works on the FIRST alignment of the file only
+        text += more_alignments(rng, abc, rf=bool(rf), sscons=bool(sscons), n=1)
     ops = [op_file("in.sto", text)]
     args = []
     for n, v in opts:
@@ -1951,6 +2119,9 @@ def _alimanip_build(rng, opts):
     grss = {0: balanced_ss(rng, alen)} if (sscons and rng.random() < 0.3) else None
     desc = {len(rows) - 1: "a description"} if rng.random() < 0.3 else None
     text = sto_text_blocks(rows, rng.choice([alen, 200, 50]), rf=rf, sscons=sscons, grss=grss, desc=desc, ident=rng.choice([None, "aln1"]))
+    multi = rng.random() < 0.35
+    if multi:      # further alignments with the same sequence names (the name lists must match every alignment) but other shapes
+        text += more_alignments(rng, abc, names=[n for n, _ in rows], rf=bool(rf), sscons=bool(sscons))
     ops = [op_file("in.sto", text)]
     lens = sorted(len(s_.replace("-", "")) for _, s_ in rows)
     names = [n for n, _ in rows]
@@ -1975,6 +2146,8 @@ def _alimanip_build(rng, opts):
     if not abcflag: args.append(ABCFLAG[abc])
     if "--informat" not in on: args += ["--informat", "stockholm"]
     c = {"ops": ops + [op_run("esl-alimanip", args + ["in.sto"])], "on": list(on)}
+    if multi and set(on) & (ROWFILTERS - {"--seq-k", "--seq-r", "--reorder"}):
+        c.update(may_fail=True, nopred_ok=True)        # thresholds chosen for the first alignment may empty a later one
     if len(set(on) & ROWFILTERS) > 1 or set(on) & {"--rffract", "--detrunc", "--xambig"} or (abcflag and {"--dna": DNA, "--rna": "ACGU", "--amino": AMINO}[abcflag] != abc):
         c.update(may_fail=True, nopred_ok=True)        # every sequence may be filtered out: the tool then stops with a message
     if ("--outformat" in on and on["--outformat"] not in ("stockholm", "pfam") and set(on) & {"--num-rf", "--num-all", "--rm-gc"}) or \
@@ -2008,7 +2181,7 @@ def sweep_cases(ctx):
     return out
 
 
-REF_GENERATORS = [("esl-alistat exact", ref_alistat_exact), ("esl-afetch exact", ref_afetch_exact), ("esl-reformat msa->fasta", ref_reformat_msa2fasta), ("esl-reformat hmmpgmd", ref_hmmpgmd), ("esl-sfetch afa", ref_sfetch_afa), ("esl-alistat info", ref_alistat_info), ("small modes", ref_small), ("esl-afetch -f", ref_afetch_multi), ("esl-alimask", ref_alimask), ("esl-alimanip", ref_alimanip), ("easel index", ref_index), ("easel filter", ref_filter), ("esl-weight", ref_weight), ("esl-afetch", ref_afetch), ("roundtrip", ref_roundtrip), ("esl-alistat", ref_alistat), ("esl-translate", ref_translate), ("esl-sfetch", ref_sfetch), ("esl-seqstat", ref_seqstat), ("esl-alirev", ref_alirev), ("esl-alipid", ref_alipid),
+REF_GENERATORS = [("multi-alignment files", ref_multi_ali), ("esl-compstruct", ref_compstruct), ("esl-alistat exact", ref_alistat_exact), ("esl-afetch exact", ref_afetch_exact), ("esl-reformat msa->fasta", ref_reformat_msa2fasta), ("esl-reformat hmmpgmd", ref_hmmpgmd), ("esl-sfetch afa", ref_sfetch_afa), ("esl-alistat info", ref_alistat_info), ("small modes", ref_small), ("esl-afetch -f", ref_afetch_multi), ("esl-alimask", ref_alimask), ("esl-alimanip", ref_alimanip), ("easel index", ref_index), ("easel filter", ref_filter), ("esl-weight", ref_weight), ("esl-afetch", ref_afetch), ("roundtrip", ref_roundtrip), ("esl-alistat", ref_alistat), ("esl-translate", ref_translate), ("esl-sfetch", ref_sfetch), ("esl-seqstat", ref_seqstat), ("esl-alirev", ref_alirev), ("esl-alipid", ref_alipid),
                   ("esl-seqrange", ref_seqrange), ("esl-selectn", ref_selectn), ("esl-mask", ref_mask),
                   ("esl-reformat", ref_reformat), ("esl-shuffle", ref_shuffle), ("easel downsample", ref_downsample)]
 
@@ -2123,7 +2296,7 @@ def reference_cases(ctx):
     per = 30 if ctx.tier == "quick" else 300
     out = []
     for tool, g in REF_GENERATORS:
-        for i in range(max(10, per // 3) if tool in ("easel index", "esl-reformat hmmpgmd") else (2 * per if tool in ("esl-translate", "esl-sfetch") else per)):
+        for i in range(max(10, per // 3) if tool in ("easel index", "esl-reformat hmmpgmd") else (2 * per if tool in ("esl-translate", "esl-sfetch", "multi-alignment files") else per)):
             out.append(g(rng, i))
     out += sweep_cases(ctx)
     return out
